@@ -312,6 +312,14 @@ func famSchema(tr *Trace, scratch string, seed int64, tier string, repo, nfpmBin
 	}
 	emit(M{"ev": "schemafile", "identical": err == nil && perr == nil && bytes.Equal(eb, pb), "emitted_sha": sha256hex(eb)[:16], "published_sha": sha256hex(pb)[:16], "err": msg,
 		"emitted_len": len(eb), "published_len": len(pb)})
+	// ... and the command writes the same bytes wherever it is started from (the root of the source tree included)
+	for _, dir := range []string{repo, repo + "/internal/cmd", scratch} {
+		cmd := exec.Command(nfpmBin, "jsonschema")
+		cmd.Dir = dir
+		ob, oerr := cmd.Output()
+		emit(M{"ev": "schemafile", "identical": oerr == nil && bytes.Equal(bytes.TrimRight(ob, "\n"), bytes.TrimRight(pb, "\n")), "emitted_sha": sha256hex(ob)[:16], "published_sha": sha256hex(pb)[:16], "err": "",
+			"emitted_len": len(ob), "published_len": len(pb)})
+	}
 	var root map[string]any
 	if json.Unmarshal(eb, &root) != nil {
 		emit(M{"ev": "schemaparse", "err": "emitted schema is not JSON"})
@@ -407,7 +415,7 @@ func famSchema(tr *Trace, scratch string, seed int64, tier string, repo, nfpmBin
 	// every compression name documented for ANY format, tried on each compression setting: whatever a packager turns out to
 	// build must validate
 	cross = true
-	for _, c := range []string{"gzip", "xz", "zstd", "none", "lzma", "gzip:9", "zstd:3", "xz:6", "lzma:6", "bzip2", "lz4"} {
+	for _, c := range []string{"gzip", "xz", "zstd", "none", "lzma", "gzip:9", "zstd:3", "xz:6", "lzma:6", "bzip2", "lz4", "gz", "gz:9", "zst", "zst:3", "bz2", "lz", "zstd:fastest-ish", "GZIP"} {
 		d := base()
 		d["deb"] = map[string]any{"compression": c}
 		probe("deb.compression", c, d, []string{"deb"})
